@@ -70,3 +70,10 @@ Theorem c04_parse_enum_old_refuted :
   parse_enum_old names s = Ok (FEnum 1) /\ parse_enum names s = Err.
 Proof. exact parse_enum_old_refuted. Qed.
 Print Assumptions c04_parse_enum_old_refuted.
+
+(* text forms of Timestamp / Duration parameters (part wktparam): no failure on a canonical text means the value arrived *)
+From GB Require Import Model.TranscodeRun Proofs.CheckerProofs.
+Theorem c04_text_canonical_statement : forall input impl,
+  as_Z (nthv 0 input) = 1 -> prop_c04_text input impl = None -> nthv 0 impl = nthv 1 impl.
+Proof. exact c04_text_canonical_sound. Qed.
+Print Assumptions c04_text_canonical_statement.
